@@ -179,6 +179,19 @@ def run(R, tier):
         # a helper is a legitimate writer only if it is not public API surface of its own: every call site is a legitimate writer
         return bool(cs) and all(writer_ok(c, seen + (npath,)) for c in cs)
 
+    def framer_ok(npath, seen=()):
+        b = bodies.get(npath)
+        if b is None:
+            return False
+        f, _, _, d = role(b)
+        if f or d:
+            return True
+        if npath in seen:
+            return False
+        cs = callers.get(npath, set())
+        # a helper of the dispatcher: every call site is the dispatcher (or another such helper)
+        return bool(cs) and all(framer_ok(c, seen + (npath,)) for c in cs)
+
     for unit in P.units:
         for b in unit.bodies:
             for c in b.calls(with_promoted=True):
@@ -191,6 +204,6 @@ def run(R, tier):
                     ok = writer_ok(owner)
                     R.check(ok, "R10.7", "%s<-%s" % (c.method, owner), "output written from a formatter / ResponseData impl (or its helper) / ResponseUnit", "%s writes response bytes (%s): only formatters, ResponseData impls (and helpers called only by them) and ResponseUnit may, so that a non-query unit contributes nothing" % (owner, c.method), where=c.line)
                 elif c.method in CTRL:
-                    ok = in_fmt_impl or in_disp
-                    R.check(ok, "R10.7", "%s<-%s" % (c.method, owner), "framing call from the dispatcher", "%s calls %s: only the dispatcher frames messages and units" % (owner, c.method), where=c.line)
+                    ok = framer_ok(owner)
+                    R.check(ok, "R10.7", "%s<-%s" % (c.method, owner), "framing call from the dispatcher (or a helper only it calls)", "%s calls %s: only the dispatcher frames messages and units" % (owner, c.method), where=c.line)
     R.floor("R10.7", "Formatter call sites", n_w, 40)
